@@ -286,7 +286,16 @@ pub fn run(args: &Args) {
             gen_case(&mut rng)
         };
         let mut f = input_fields(&case);
-        f.push(impl_fields(&case));
+        // keep the input on the line when the implementation panics
+        match std::panic::catch_unwind(|| impl_fields(&case)) {
+            Ok(out) => f.push(out),
+            Err(e) => {
+                let msg = e.downcast_ref::<String>().cloned()
+                    .or_else(|| e.downcast_ref::<&str>().map(|s| s.to_string()))
+                    .unwrap_or_default();
+                f.push(S::k1("panic", S::str(&msg)));
+            }
+        }
         f
     });
 }
